@@ -290,7 +290,7 @@ spif_mbuff_init_from_fd(spif_mbuff_t self, int fd)
         self->len = self->size = file_size;
         self->buff = (spif_byteptr_t) MALLOC(self->size);
 
-        if (read(fd, p, file_size) < 1) {
+        if (read(fd, self->buff, file_size) < 1) {
             FREE(self->buff);
             return FALSE;
         }
